@@ -17,6 +17,7 @@
 mod gens;
 mod model;
 pub mod moduli;
+mod surface;
 
 use crypto_bigint::modular::{
     BoxedMontyForm, BoxedMontyParams, ConstMontyForm, ConstMontyParams, MontyForm, MontyParams,
@@ -32,7 +33,7 @@ use vmodel::*;
 pub fn spec() -> PropSpec {
     PropSpec {
         id: "C09",
-        rule: "cases: odd modulus m (classes 1, 3, 2^B-1, 2^(B-1)+1, ~R/3, ~R/4, small prime, zero high limbs, 2^B-c, top-limb edge, random odd, R/4<=m<R/2, chosen leading-zero count 0..=63+, m>=R/2; 17 compile-time moduli) x base in {0, 1, m-1, (m+1)/2, m-2, random<m, value>=m for fixed-width new} x exponent shapes {0, 1, 2^j, all-ones, K, P, T, L, U, sparse windows, repeated nibble} of a width equal / narrower / wider than the base x bit bound k in 0..=BITS(exponent) (boundary list 0,1,3,4,5,63,64,65,BITS-1,BITS; neighbourhoods of multiples of 4 and 64; bitlen(e)+-1; uniform; every k for the allk sub-checks); multi-exponentiation with 1..=5 terms (array and slice forms); lincomb with 1..=40 terms, term count biased to j*2^lz+{-1,0,1}, residues biased to m-1; boxed pow-double-reduction: m in [0.42R,0.495R], 12-bit exponent found by an oracle-side model search of the almost-Montgomery ladder so that the accumulator leaves the loop >= 2m. Each case runs every API form (inherent, PowBoundedExp, Pow, MultiExponentiate(BoundedExp), Monty-generic, const/dyn/boxed conversions) against one BigUint oracle value and requires retrieve()==oracle and as_montgomery()<m. non-trivial: pow / multi-exp: (some) base mod m not in {0,1} AND (k%4 != 0 OR k > 64 OR e mod 2^k has >= 2 non-zero 4-bit windows) [allk sub-checks: base mod m not in {0,1} AND e != 0, every k is run]; pow-double-reduction: the model search found an exponent with final accumulator >= 2m; lincomb: term count > 2^min(lz,63) (more than one accumulation window) OR (>= 2 terms AND exact sum of products >= m). distinct by (m, bases, exponents, k) resp. (m, all terms).",
+        rule: "cases: odd modulus m (classes 1, 3, 2^B-1, 2^(B-1)+1, ~R/3, ~R/4, small prime, zero high limbs, 2^B-c, top-limb edge, random odd, R/4<=m<R/2, chosen leading-zero count 0..=63+, m>=R/2; 17 compile-time moduli) x base in {0, 1, m-1, (m+1)/2, m-2, random<m, value>=m for fixed-width new} x exponent shapes {0, 1, 2^j, all-ones, K, P, T, L, U, sparse windows, repeated nibble} of a width equal / narrower / wider than the base x bit bound k in 0..=BITS(exponent) (boundary list 0,1,3,4,5,63,64,65,BITS-1,BITS; neighbourhoods of multiples of 4 and 64; bitlen(e)+-1; uniform; every k for the allk sub-checks); multi-exponentiation with 1..=5 terms (array and slice forms); lincomb with 1..=40 terms, term count biased to j*2^lz+{-1,0,1}, residues biased to m-1; boxed pow-double-reduction: m in [0.42R,0.495R], 12-bit exponent found by an oracle-side model search of the almost-Montgomery ladder so that the accumulator leaves the loop >= 2m. Each case runs every API form (inherent, PowBoundedExp, Pow, MultiExponentiate(BoundedExp), Monty-generic, const/dyn/boxed conversions) against one BigUint oracle value and requires retrieve()==oracle and as_montgomery()<m. non-trivial: pow / multi-exp: (some) base mod m not in {0,1} AND (k%4 != 0 OR k > 64 OR e mod 2^k has >= 2 non-zero 4-bit windows) [allk sub-checks: base mod m not in {0,1} AND e != 0, every k is run]; pow-double-reduction: the model search found an exponent with final accumulator >= 2m; lincomb: term count > 2^min(lz,63) (more than one accumulation window) OR (>= 2 terms AND exact sum of products >= m). distinct by (m, bases, exponents, k) resp. (m, all terms). surface/* sub-checks (API-surface audit): the same generators, oracle and rules at 3, 5, 6, 7 limbs (bases) and 3, 5, 7 limbs (exponents), 4 more compile-time moduli, 7-term arrays, parameter sets / bases that went through constant-time selection against a decoy modulus, linear combinations over equivalent but separately built parameter sets; the documented panic of lincomb_vartime on an empty list counts as non-trivial.",
         assumptions: vec![
             "num-bigint modpow / mul / rem are correct (independent implementation)".into(),
             "bridging uses from_words/as_words only; moduli enter through Odd::new / impl_modulus!".into(),
@@ -898,5 +899,7 @@ fn subchecks(_ctx: &Ctx) -> Vec<SubCheck> {
     v.push(SubCheck::new("boxed/pow-allk/1..=17", 3600, boxed_allk(17)).tape(2 * (2 * 17 + 2 + 50)).thorough(10));
     v.push(SubCheck::new("boxed/lincomb/1..=17", 30000, boxed_lincomb(17)).tape(2 * (17 + 30 + 40 * 6)));
     v.push(SubCheck::new("boxed/pow-double-reduction/1..=17", 6000, boxed_pow_double_reduction(17)).tape(24).thorough(10));
+    // API-surface audit (/verif/audit/E.md): appended last so that existing sub-check indices stay stable
+    v.extend(surface::subchecks());
     v
 }
